@@ -755,63 +755,78 @@ func c16mux(c *Ctx) {
 	}
 	methods := []string{"Bind", "Unbind", "Search", "ExtendedOperation", "Modify", "Add", "Delete", "DefaultRoute"}
 	h := func(*gldap.ResponseWriter, *gldap.Request) {}
-	for _, m := range methods {
-		for _, withH := range []bool{true, false} {
-			subsetsInOrder(len(optNames), func(order []int) {
-				if len(order) > 3 || !c.Mine() {
-					return
-				}
-				c.Count("inputs", 1)
-				c.Count("Mux.registrations", 1)
-				c.Count("calls", 1)
-				var opts []gldap.Option
-				var names []string
-				for _, i := range order {
-					opts = append(opts, mkopt(i))
-					names = append(names, optNames[i])
-				}
-				var fn gldap.HandlerFunc
-				if withH {
-					fn = h
-				}
-				var err error
-				k := try(func() {
-					mux, e := gldap.NewMux()
-					if e != nil {
-						err = e
+	// receivers: a Mux from NewMux and the zero value of the exported type (what NewServer itself installs)
+	for _, recv := range []string{"NewMux()", "&Mux{}", "new(Mux)"} {
+		for _, m := range methods {
+			for _, withH := range []bool{true, false} {
+				subsetsInOrder(len(optNames), func(order []int) {
+					if len(order) > 3 || !c.Mine() {
 						return
 					}
-					switch m {
-					case "Bind":
-						err = mux.Bind(fn, opts...)
-					case "Unbind":
-						err = mux.Unbind(fn, opts...)
-					case "Search":
-						err = mux.Search(fn, opts...)
-					case "ExtendedOperation":
-						err = mux.ExtendedOperation(fn, gldap.ExtendedOperationWhoAmI, opts...)
-					case "Modify":
-						err = mux.Modify(fn, opts...)
-					case "Add":
-						err = mux.Add(fn, opts...)
-					case "Delete":
-						err = mux.Delete(fn, opts...)
-					case "DefaultRoute":
-						err = mux.DefaultRoute(fn, opts...)
+					if recv != "NewMux()" && len(order) > 1 {
+						return
+					}
+					c.Count("inputs", 1)
+					c.Count("Mux.registrations", 1)
+					c.Count("calls", 1)
+					var opts []gldap.Option
+					var names []string
+					for _, i := range order {
+						opts = append(opts, mkopt(i))
+						names = append(names, optNames[i])
+					}
+					var fn gldap.HandlerFunc
+					if withH {
+						fn = h
+					}
+					var err error
+					k := try(func() {
+						var mux *gldap.Mux
+						switch recv {
+						case "&Mux{}":
+							mux = &gldap.Mux{}
+						case "new(Mux)":
+							mux = new(gldap.Mux)
+						default:
+							m0, e := gldap.NewMux()
+							if e != nil {
+								err = e
+								return
+							}
+							mux = m0
+						}
+						switch m {
+						case "Bind":
+							err = mux.Bind(fn, opts...)
+						case "Unbind":
+							err = mux.Unbind(fn, opts...)
+						case "Search":
+							err = mux.Search(fn, opts...)
+						case "ExtendedOperation":
+							err = mux.ExtendedOperation(fn, gldap.ExtendedOperationWhoAmI, opts...)
+						case "Modify":
+							err = mux.Modify(fn, opts...)
+						case "Add":
+							err = mux.Add(fn, opts...)
+						case "Delete":
+							err = mux.Delete(fn, opts...)
+						case "DefaultRoute":
+							err = mux.DefaultRoute(fn, opts...)
+						}
+					})
+					rep := c16rep{Fn: "Mux." + m, Note: fmt.Sprintf("receiver=%s handler=%v options=%v", recv, withH, names)}
+					switch {
+					case k != "":
+						c.Report(k, "Mux."+m+" panicked: "+rep.Note, rep)
+					case withH && err != nil:
+						c.Report("Mux."+m+" rejects a valid handler", fmt.Sprintf("%s: %v", rep.Note, err), rep)
+					case !withH && err == nil:
+						c.Report("Mux."+m+" accepts a nil handler", rep.Note, rep)
+					default:
+						c.Outcome(fmt.Sprintf("Mux.%s:handler=%v", m, withH))
 					}
 				})
-				rep := c16rep{Fn: "Mux." + m, Note: fmt.Sprintf("handler=%v options=%v", withH, names)}
-				switch {
-				case k != "":
-					c.Report(k, "Mux."+m+" panicked: "+rep.Note, rep)
-				case withH && err != nil:
-					c.Report("Mux."+m+" rejects a valid handler", fmt.Sprintf("%s: %v", rep.Note, err), rep)
-				case !withH && err == nil:
-					c.Report("Mux."+m+" accepts a nil handler", rep.Note, rep)
-				default:
-					c.Outcome(fmt.Sprintf("Mux.%s:handler=%v", m, withH))
-				}
-			})
+			}
 		}
 	}
 }
